@@ -213,6 +213,66 @@ func TestC09(t *testing.T) {
 	})
 }
 
+// TestC09Ex: directed sweeps. (1) data ending exactly on a buffer-full point whose pending token count
+// is swept across the 32767-token block limit, with the last byte written alone vs. in one Write;
+// (2) Huffman-only data of exact multiples of 64 KiB, same two partitions.
+func TestC09Ex(t *testing.T) {
+	count := 0
+	run := func(c C09Case, label string) {
+		done := begin("C09", c)
+		labels, nt, err := checkC09(c)
+		done()
+		if err != nil {
+			saveLast("C09", c, err)
+			t.Fatalf("C09 violated (%s): %v", label, err)
+		}
+		stats.Record("C09", stats.Digest(c), nt, append(labels, label), func() any { return c })
+		count++
+	}
+	step := 4
+	if thorough() {
+		step = 1
+	}
+	for _, full := range []int{65794, 8450} {
+		ctor := "new"
+		if full == 8450 {
+			ctor = "4k"
+		}
+		// incompressible lead (about one token per two bytes at accelerated levels, one per byte at level 0)
+		// followed by a run: sweeping the lead length sweeps the token count of the data ending at `full`
+		for lead := 32500; lead <= full; lead++ {
+			fine := (lead >= 32560 && lead <= 32720) || (lead >= full-360 && lead <= full-180) // one literal per token (level 0) / two per token
+			if !fine && (lead < full-700 || (lead-full)%step != 0) {
+				continue
+			}
+			if full == 8450 && lead < full-700 {
+				continue
+			}
+			for _, lvl := range []int{1, 2} {
+				n := full
+				data := gen.Recipe{Segs: []gen.Seg{{Kind: "rand", N: lead, A: 256, Seed: 11}, {Kind: "run", N: n - lead, A: 0x55}}}
+				c := C09Case{Data: data, Set: PSetting{Pkg: "flate", WSetting: WSetting{Ctor: ctor, Level: lvl}},
+					OpsA: []gen.Op{{K: "W", N: n - 1}, {K: "W", N: 1}}, OpsB: []gen.Op{{K: "W", N: n}}}
+				run(c, "token-limit-at-buffer-full-sweep")
+				c.Flushes = []int{n}
+				c.OpsA = []gen.Op{{K: "W", N: n - 1}, {K: "W", N: 1}, {K: "F"}}
+				c.OpsB = []gen.Op{{K: "W", N: n}, {K: "F"}}
+				run(c, "token-limit-at-buffer-full-sweep")
+			}
+		}
+	}
+	for k := 1; k <= 3; k++ {
+		for _, ctor := range []string{"new", "4k"} {
+			n := k * 65536
+			data := gen.Recipe{Segs: []gen.Seg{{Kind: "text", N: n, Seed: uint64(k)}}}
+			c := C09Case{Data: data, Set: PSetting{Pkg: "flate", WSetting: WSetting{Ctor: ctor, Level: -2}},
+				OpsA: []gen.Op{{K: "W", N: n - 1}, {K: "W", N: 1}}, OpsB: []gen.Op{{K: "W", N: n}}}
+			run(c, "huffman-only-exact-64KiB-multiple")
+		}
+	}
+	stats.Exhaustive("C09", fmt.Sprintf("data ending on a buffer-full point (65794 / 8450) with an incompressible lead of full-700..full bytes (step %d) then a run, levels 1,2; last byte alone vs one Write, with and without a Flush there; Huffman-only k*65536 bytes", step), count)
+}
+
 func init() {
 	replayers["C09"] = func(raw json.RawMessage) error {
 		var c C09Case
